@@ -196,7 +196,9 @@ func TestC01(t *testing.T) {
 			}
 			nt = fault != "none" && (k.xover || k.peering || !k.consdir[tseg] || k.arrival != "ext")
 			canon = fmt.Sprintf("%x|%s", raw[:min(len(raw), 150)], fault)
-			rec.Sample(func() any { return map[string]any{"case": k.String(), "fault": fault, "target_hop": target, "disposition": r.res.Disposition, "scmp_code": int(r.res.SPCode)} })
+			rec.Sample(func() any {
+				return map[string]any{"case": k.String(), "fault": fault, "target_hop": target, "disposition": r.res.Disposition, "scmp_code": int(r.res.SPCode)}
+			})
 		})
 		if fail != "" {
 			rt.Fatalf("%s", fail)
